@@ -1,6 +1,6 @@
 """BCP socket client."""
 import json
-from urllib.parse import urlsplit, parse_qs, quote, unquote, urlunparse
+from urllib.parse import urlsplit, parse_qs, quote, urlunparse
 
 import asyncio
 
@@ -64,8 +64,6 @@ def decode_command_string(bcp_string) -> Tuple[str, dict]:
                 v[0] = False
             elif v[0] == 'NoneType:':
                 v[0] = None
-            else:
-                v[0] = unquote(v[0])
 
             kwargs[k] = v
 
